@@ -43,7 +43,8 @@ REQUIRED = dict(monitors=['restricted-equals-full', 'restricted-grid-is-subset',
                          'request:foreign-shifted-same-count', 'request:own-sub-range', 'request:foreign-random',
                          'requested-order:ascending', 'requested-order:descending', 'requested-order:shuffled', 'requested-order:file-order-with-an-outlying-row',
                          'emission:same-size-window', 'emission:star-written-between-evaluations',
-                         'request:work-array-refilled-in-place', 'request:foreign-ending-on-an-end-point'])
+                         'request:work-array-refilled-in-place', 'request:foreign-ending-on-an-end-point',
+                         'table:empty-far-wing:exp', 'table:empty-far-wing:linear', 'request:own-sub-range-clear-of-the-empty-wing'])
 CUT = math.exp(-10.0)
 
 
@@ -395,13 +396,27 @@ def wl_binning(ctx, rng):
     ctx.sig('binning', spec['nlayers'], k, int(kindw), len(native), round(spec['planet_mass'], 6))
 
 
-def make_opacity(rng, layout):
+def make_opacity(rng, layout, wing=False):
+    make_opacity.clear = None
     from taurex.opacity import InterpolatingOpacity
     Fake = world.fake_opacity_class()
     wn = world.wn_grid(rng, int(rng.integers(3, 60)))
     T, P, x = world.make_table(rng, ['thin', 'mixed', 'saturating'][rng.integers(0, 3)], int(rng.integers(2, 5)),
                                int(rng.integers(2, 5)), wn)
     mode = ['linear', 'exp'][rng.integers(0, 2)]
+    if wing and len(wn) >= 6:
+        # an empty far wing: the table is exactly zero over a block of wavenumbers at one end.  In 'exp' mode the package
+        # returns NaN there (log of zero) - and only there: what it returns elsewhere may not depend on whether the
+        # request includes the wing
+        j = int(rng.integers(1, len(wn) // 2))
+        if rng.random() < 0.5:
+            x[..., :j] = 0.0
+            clear = (j, len(wn))
+        else:
+            x[..., len(wn) - j:] = 0.0
+            clear = (0, len(wn) - j)
+        make_opacity.clear = clear
+        make_opacity.mode = mode
     if layout == 'xsec':
         return Fake('H2O', wn, T, P, x, interpolation_mode=mode), wn, T, P
     from taurex.opacity.ktables.ktable import KTable
@@ -420,7 +435,8 @@ def make_opacity(rng, layout):
 def judge_request(ctx, op, t, p, grid, fullv, wn, layout, kind):
     """One request on the (same) opacity object: own native points are returned unchanged, other points lie between
     the two neighbouring native values (the edge value outside the native range)."""
-    v = np.array(op.opacity(t, p, grid))
+    with np.errstate(all='ignore'):
+        v = np.array(op.opacity(t, p, grid))
     fv = fullv.reshape(len(wn), -1)
     ok_shape = ctx.check('opacity-request-shape', v.shape[0] == len(grid), got=list(v.shape), n=len(grid), kind=kind, layout=layout)
     if not ok_shape:
@@ -430,7 +446,8 @@ def judge_request(ctx, op, t, p, grid, fullv, wn, layout, kind):
     own = bool(np.all(idx < len(wn)) and np.array_equal(wn[np.minimum(idx, len(wn) - 1)], grid)
                and (len(grid) < 2 or np.all(np.diff(idx) == 1)))
     if own:
-        ctx.check('opacity-own-points-unchanged', np.array_equal(vv, fv[idx]), layout=layout, n=len(grid), kind=kind)
+        ctx.check('opacity-own-points-unchanged', np.array_equal(vv, fv[idx], equal_nan=True), layout=layout, n=len(grid),
+                  kind=kind, nan_in_full=int(np.sum(~np.isfinite(fv))), nan_in_request=int(np.sum(~np.isfinite(vv))))
         return
     ok = True
     for j, f in enumerate(grid):
@@ -439,6 +456,8 @@ def judge_request(ctx, op, t, p, grid, fullv, wn, layout, kind):
         cand = [fv[k] for k in (lo_i, hi_i) if 0 <= k < len(wn)]
         if hi_i < len(wn) and wn[hi_i] == f:
             cand = [fv[hi_i]]
+        if not np.all(np.isfinite(cand)):
+            continue                       # next to the empty wing of an 'exp' table: no finite neighbours to lie between
         lo_v = np.min(cand, axis=0)
         hi_v = np.max(cand, axis=0)
         tol = 1e-12 * np.abs(hi_v)
@@ -456,11 +475,16 @@ def wl_opacity(ctx, rng):
     count as the native grid, a shifted copy of the native grid, and the native grid again."""
     layout = ['xsec', 'ktable'][rng.integers(0, 2)]
     ctx.observe('layout:' + layout)
-    op, wn, T, P = make_opacity(rng, layout)
+    op, wn, T, P = make_opacity(rng, layout, wing=bool(rng.random() < 0.25))
+    clear = make_opacity.clear
     t = float(rng.uniform(T[0] * 0.7, T[-1] * 1.2))
     p = float(10 ** rng.uniform(np.log10(P[0]) - 1, np.log10(P[-1]) + 1))
-    fullv = np.array(op.opacity(t, p))
+    with np.errstate(all='ignore'):
+        fullv = np.array(op.opacity(t, p))
     kinds = ['own-sub-range', 'foreign-random']
+    if clear is not None:
+        ctx.observe('table:empty-far-wing:' + make_opacity.mode)
+        kinds.append('own-sub-range-clear-of-the-empty-wing')
     extra = ['own-full', 'foreign-same-ends-and-count', 'foreign-shifted-same-count', 'own-sub-range', 'foreign-random', 'own-full',
              'foreign-ending-on-an-end-point', 'foreign-ending-on-an-end-point']
     kinds += [extra[k] for k in rng.integers(0, len(extra), int(rng.integers(1, 5)))]
@@ -469,7 +493,11 @@ def wl_opacity(ctx, rng):
     led = own.Ledger(ctx, 'opacity-requests')
     work = {}                   # the caller's work arrays, one per length: refilled in place for the next request
     for kind in kinds:
-        if kind == 'own-sub-range':
+        if kind == 'own-sub-range-clear-of-the-empty-wing':
+            grid = wn[clear[0]:clear[1]].copy()
+            if len(grid) > 2 and rng.random() < 0.5:
+                grid = grid[1:-1] if clear[0] == 0 else grid[:-1]
+        elif kind == 'own-sub-range':
             i0 = int(rng.integers(0, len(wn) - 1))
             i1 = int(rng.integers(i0 + 1, len(wn) + 1))
             grid = wn[i0:i1].copy()
@@ -513,8 +541,9 @@ def wl_opacity(ctx, rng):
         led.settle('request ' + kind)
         ctx.observe('request:' + kind)
         done.append(kind)
-    again = np.array(op.opacity(t, p))
-    ctx.check('opacity-native-unchanged-after-requests', np.array_equal(again, fullv), layout=layout, sequence=done)
+    with np.errstate(all='ignore'):
+        again = np.array(op.opacity(t, p))
+    ctx.check('opacity-native-unchanged-after-requests', np.array_equal(again, fullv, equal_nan=True), layout=layout, sequence=done)
     ctx.sig('opacity', layout, len(wn), tuple(done), round(t, 3))
 
 
